@@ -571,6 +571,8 @@ func cmdCheck(args []string) int {
 	a := &agg{fps: map[string]bool{}, faults: map[string]int{}, probes: map[string]int{}, configs: map[string]int{}, strategies: map[string]int{}}
 	var founds []*found
 	classesSeen := map[string]bool{}
+	crashCount := map[string]int{}
+	abort := false // one crash class seen many times: exploring further only repeats it (a wedge costs its whole watchdog period)
 	var mu sync.Mutex
 	next := 0
 	deadline := start.Add(time.Duration(secs * float64(time.Second)))
@@ -583,7 +585,7 @@ func cmdCheck(args []string) int {
 			defer wg.Done()
 			for {
 				mu.Lock()
-				if next >= runs || time.Now().After(deadline) || len(classesSeen) >= 6 {
+				if next >= runs || time.Now().After(deadline) || len(classesSeen) >= 6 || abort {
 					mu.Unlock()
 					return
 				}
@@ -643,7 +645,15 @@ func cmdCheck(args []string) int {
 						founds = append(founds, &found{index: cidx, crash: true, seed: out.crashSeed, viol: Violation{Invariant: prop + "/crash", Class: class, Detail: firstLines(out.stderr, 60)}})
 					}
 					a.evals++
+					crashCount[class]++
+					if crashCount[class] >= 8 {
+						abort = true
+					}
+					stop := abort || time.Now().After(deadline)
 					mu.Unlock()
+					if stop {
+						break
+					}
 					// continue the batch after the crashing seed
 					idx := -1
 					for i, s := range seeds {
